@@ -1291,9 +1291,9 @@ def covar_errors(params, data, errs, B, C=None):
         except (np.linalg.LinAlgError, ValueError) as _:
             onesigma = [-2] * len(mask[0])
 
+    j = 0
     for i in range(int(params['components'].value)):
         prefix = "c{0}_".format(i)
-        j = 0
         for p in ['amp', 'xo', 'yo', 'sx', 'sy', 'theta']:
             if params[prefix + p].vary:
                 params[prefix + p].stderr = onesigma[j]
